@@ -76,6 +76,7 @@ def build(tier, seed):
         return mk
     # termination: the loop variants of the scanners / readers are part of their contracts (re-used here under C20's id)
     tasks = [Task(f"{PROP}.S.instance_state", PROP, "reader / parser classes", lambda: __import__("contracts.plumbing", fromlist=["x"]).no_shared_mutable_state(PROP, replay=lambda: __import__("bounded.c20", fromlist=["x"]).leak_cases())),
+             Task(f"{PROP}.S.preprocessor_exit", PROP, "FortranReader.__init__", lambda: containment.preprocessor_exit_obligations(PROP)),
              Task(f"{PROP}.S.containment", PROP, "exception containment", _replay(containment.obligations)),
              Task(f"{PROP}.S.diagnostic", PROP, "ford.console.warn", lambda: containment.diagnostic_obligations(PROP)),
              a_task(PROP, _mk(scanners.unterminated)), a_task(PROP, _mk(scanners.quote_split)), a_task(PROP, _mk(scanners.paren_split)), a_task(PROP, _mk(scanners.get_parens)),
